@@ -152,9 +152,18 @@ ChkTerminal(res, nmsg, got) ==
        ELSE {<<"C02", "error-fabricated-while-handler-running">>}
 
 \* results of receives issued after the first terminal result
+\* (a context status is reported because the context is done, not because of
+\* how the call ended: a later io.EOF after it is judged like a first one --
+\* success must be justified by the handler's OK and a complete response --
+\* whereas io.EOF after any other error turns a failed call into a success)
 ChkAfterTerminal(res) ==
   V(res.k # "nil", "C02", "message-after-final-status")
-  \cup V(~(cTerm.k = "err" /\ res.k = "eof") , "C02", "eof-after-error")
+  \cup (IF cTerm.k = "err" /\ res.k = "eof"
+          THEN IF IsCtxStatus(cTerm)
+                 THEN IF RespStream THEN ChkTerminal(res, 0, RangeOf(cRecvd))
+                      ELSE V(HandlerOK /\ ~fault, "C02", "eof-after-error")
+                 ELSE {<<"C02", "eof-after-error">>}
+          ELSE {})
   \cup V(~(cTerm.k \in {"eof","nil"} /\ res.k = "err") \/ IsCtxStatus(res) \/ ~RespStream,
          "C02", "error-after-success")
 
@@ -343,7 +352,10 @@ Chk_HRecvRet(res, msg) ==
   ELSE IF res.k = "eof" THEN
        \* (once the context has ended the request stream is broken anyway and
        \* what a further receive reports is not constrained)
-       V(closeSend \/ cctx # "live", "C01", "request-eof-without-closesend")
+       \* (the HTTP server stream of a single-request method ends the request
+       \* stream itself after the first receive, whatever its result)
+       V(closeSend \/ cctx # "live" \/ (tr = "http" /\ ~ReqStream /\ hRecvStarted >= 2),
+         "C01", "request-eof-without-closesend")
        \cup V(ReqComplete \/ ~ReqStream, "C01", "request-eof-with-missing-messages")
   ELSE {}
 
